@@ -16,8 +16,8 @@ RULE = (
     "Maxwell-Betti symmetry of the flexibility matrix assembled from the unit-load columns, superposition, rigid rotation of the tube model; "
     "non-trivial = distinct configurations with non-zero response"
 )
-ASSUMPTIONS = ["finite alphabets for layouts (incl. 60 deg sweep, winglet, full-span structures centred and off the plane y = 0, model scale 1e-3, two materials) and section properties; ny<=7", "reference frame oasmc/ref/ref_beam.py (self-tested on closed-form cantilevers)", "loads of 1e3 N >> 1e-6 N zeroing threshold", "OpenMDAO/NumPy/SciPy trusted"]
-BOUND = {"quick": "ny in {2,3,4} half / {3,5} full", "thorough": "ny up to 7"}
+ASSUMPTIONS = ["finite alphabets for layouts (incl. 60 deg sweep, winglet, full-span structures centred and off the plane y = 0, model scale 1e-3, two materials) and section properties; ny<=7 in the complete product, ny<=41 (81 thorough) on two layouts", "reference frame oasmc/ref/ref_beam.py (self-tested on closed-form cantilevers)", "loads of 1e3 N >> 1e-6 N zeroing threshold", "OpenMDAO/NumPy/SciPy trusted"]
+BOUND = {"quick": "ny in {2,3,4} half / {3,5} full exhaustively; production-size beams ny 21 (left), 16 (right), 41 (full) on two layouts x two models", "thorough": "ny up to 7 exhaustively; production-size beams up to ny 50 / 33 / 81"}
 TOL = 1e-9
 E_, G_ = 70.0e9, 30.0e9
 
@@ -30,6 +30,10 @@ def states(tier, seed):
     secs = ["uniform", "varying", "tube"]
     for lay, (side, ny), sec, model in itertools.product(layouts, sides, secs, ["tube", "wingbox"]):
         st.append(dict(part="frame", layout=lay, side=side, ny=ny, sec=sec, model=model, fam=fam))
+    # production-size node counts (index arithmetic of the assembly, the clamp row and the permutation beyond ny = 7)
+    big = [("left", 21), ("full", 41), ("right", 16)] + ([("left", 50), ("full", 81), ("right", 33)] if tier == "thorough" else [])
+    for lay, (side, ny), model in itertools.product(["sweptdi", "winglet"], big, ["tube", "wingbox"]):
+        st.append(dict(part="frame", layout=lay, side=side, ny=ny, sec="varying", model=model, fam=fam))
     for (side, ny), sec in itertools.product([("left", 2), ("left", 4), ("full", 5), ("full", 3)], ["uniform", "tube"]):
         st.append(dict(part="cantilever", side=side, ny=ny, sec=sec, fam=fam))
     for lay, (side, ny), rot in itertools.product(["swept", "sweptdi", "kinked"], [("left", 3), ("full", 5)] + ([("left", 4), ("full", 7)] if tier == "thorough" else []), ["z20", "z45", "x30", "y10"]):
